@@ -2,21 +2,24 @@
    Directives used: those of ExtrOcamlBasic only (bool, option, unit, list, prod, sumbool, sumor);
    no Extract Constant; Z / positive stay as extracted inductives. *)
 Require Import ExtrOcamlBasic.
-Require Import Base Fixed Panic Curve Bank BankOps TransferFee XrateConsts Xrate.
+Require Import Base Fixed Panic Curve Bank BankOps TransferFee XrateConsts Xrate Price.
 Extraction Language OCaml.
 Extraction "extract/model.ml"
   p_pause p_unpause p_unpause_if_expired p_is_expired p_can_pause c_is_expired ix_propagate
   ix_panic_pause ix_panic_unpause ix_panic_unpause_permissionless is_protocol_paused mkP
   ir_validate calc_interest_rate mpc legacy_curve
-  bstep brun la_empty mkBW accrual_state_changes remaining_deposit_capacity
-  pre_fee_deposit_amount calculate_fee urun
-  i80_from_i128_checked adjust_i128 adjust_i64 adjust_u64 collateral_to_liquidity_from_scaled
-  liquidity_to_collateral_from_scaled liq_to_col_ratio col_to_liq_ratio scale_supplies convert_decimals
-  u68f60_to_i80f48 k_total_supply k_scaled_supplies k_collateral_to_liquidity k_liquidity_to_collateral k_is_stale
-  decimal_to_i80f48 s_total_liquidity s_scaled_supplies s_collateral_to_liquidity s_liquidity_to_collateral s_is_stale
+  bstep brun la_empty mkBW accrual_state_changes remaining_deposit_capacity pre_fee_deposit_amount
+  calculate_fee urun i80_from_i128_checked adjust_i128 adjust_i64 adjust_u64
+  collateral_to_liquidity_from_scaled liquidity_to_collateral_from_scaled liq_to_col_ratio
+  col_to_liq_ratio scale_supplies convert_decimals u68f60_to_i80f48 k_total_supply k_scaled_supplies
+  k_collateral_to_liquidity k_liquidity_to_collateral k_is_stale decimal_to_i80f48 s_total_liquidity
+  s_scaled_supplies s_collateral_to_liquidity s_liquidity_to_collateral s_is_stale
   s_rate_from_reserve s_rate_collateral_to_liquidity s_rate_liquidity_to_collateral
-  get_precision_increase d_scaled_balance_increment d_scaled_balance_decrement d_withdraw_token_amount
-  d_adjust_i64 d_adjust_u64 d_adjust_i128 d_is_stale scale_drift_deposit_limit
-  kamino_pyth kamino_swb solend_pyth solend_swb drift_pyth drift_swb of_int
-  E_Drift_ScalingOverflow E_Drift_MathError E_Kamino_MathError E_Solend_MathError E_Solend_ReserveStale
-  E_Anchor_InvalidNumericConversion DRIFT_SCALED_BALANCE_DECIMALS DRIFT_EXP_10_I80F48.
+  get_precision_increase d_scaled_balance_increment d_scaled_balance_decrement
+  d_withdraw_token_amount d_adjust_i64 d_adjust_u64 d_adjust_i128 d_is_stale
+  scale_drift_deposit_limit kamino_pyth kamino_swb solend_pyth solend_swb drift_pyth drift_swb
+  of_int E_Drift_ScalingOverflow E_Drift_MathError E_Kamino_MathError E_Solend_MathError
+  E_Solend_ReserveStale E_Anchor_InvalidNumericConversion DRIFT_SCALED_BALANCE_DECIMALS
+  DRIFT_EXP_10_I80F48 PE_BORSH_IO px_scale_supplies px_try_from_bank px_try_from_bank_with_max_age
+  px_price_of_type px_price_and_conf px_try_get_price_feed px_single_balance_components
+  px_liquidation_prices px_receivership_withdraw_price.
